@@ -35,8 +35,10 @@ A_, B_ = ID("a"), ID("b")
 LIT = {"1": ("lit", "INT_LIT", "1"), '"s"': ("lit", "STRING_LIT", '"s"'), "true": ("lit", "BOOL_LIT", "true"),
        "false": ("lit", "BOOL_LIT", "false"), "null": ("lit", "NULL_LIT", "null")}
 ELIST, EMAP = ("list", ()), ("map", ())
-ATOMS = [A_, ELIST, LIT["1"], EMAP, LIT['"s"'], B_, LIT["true"], ("dotid", "a"), ("list", (A_,)), ("call", "f", (A_,)),
-         LIT["null"], ("map", ((A_, B_),)), LIT["false"]]
+# `[]` last: with the rotations used it stays out of most multi-operator terms, so the one known dump
+# defect it triggers cannot mask the dump oracle there (terms1 / containers still put it everywhere)
+ATOMS = [A_, LIT["1"], EMAP, LIT['"s"'], B_, LIT["true"], ("dotid", "a"), ("list", (A_,)), ("call", "f", (A_,)),
+         LIT["null"], ("map", ((A_, B_),)), LIT["false"], ELIST]
 NA = len(ATOMS)
 UNOPS = ("not", "neg", "dot", "dotcall", "index", "msg")      # the last three carry one inner leaf
 INNER = ("dotcall", "index", "msg")
@@ -312,7 +314,8 @@ def ref_must_be(text, term):
         raise runner.HarnessError(f"printer and reference parser disagree on {text!r}: {got!r} vs {term!r}")
 
 
-HYPS = [("empty-list_lit", lambda n: ("list", (A_,)) if n == ELIST else n),
+MARK = "zz9"                               # identifier used nowhere else: `[]` -> `[zz9]`
+HYPS = [("empty-list_lit", lambda n: ("list", (ID(MARK),)) if n == ELIST else n),
         ("empty-map_lit", lambda n: ("map", ((A_, B_),)) if n == EMAP else n),
         ("int-literal-before-dot", lambda n: (n[0], ID("n")) + n[2:] if n[0] in ("dot", "dotcall") and n[1][:2] == ("lit", "INT_LIT") else n),
         ("multi-field-message", lambda n: ("msg", n[1], n[2][:1]) if n[0] == "msg" and len(n[2]) > 1 else n)]
@@ -359,8 +362,20 @@ def check_dump(part, term, style, text, tree, space):
         part.outcome("dump:failed (counted; attribution sampled per shard)")
         return
     cause, present = dump_cause(term, STYLES[style])
+    what = mode
+    if cause == "empty-list_lit" and isinstance(dumped, str):
+        # the one defect "an empty list literal is rendered as the empty string": the dump of the same term
+        # with every `[]` replaced by `[zz9]`, minus the text `[zz9]`, is exactly the observed dump
+        import celpy.celparser as cp
+        o = rparse(STYLES[style](mapterm(term, HYPS[0][1])))
+        try:
+            marked = cp.tree_dump(o[1]) if o[0] == "T" else None
+        except Exception:  # noqa
+            marked = None
+        if isinstance(marked, str) and marked.replace(f"[({MARK})]", "").replace(f"[{MARK}]", "") == dumped:
+            what = "rendered-as-empty-string"
     part.outcome(f"dump:{cause}")
-    part.violation("dump-round-trip", f"dump:{cause}:{mode}", {"check": "dump", "text": text, "space": space},
+    part.violation("dump-round-trip", f"dump:{cause}:{what}", {"check": "dump", "text": text, "space": space},
                    f"parse({text!r}) dumps to {dumped!r}: {mode} (expected a text that re-parses to the same tree; suspect constructs present: {present})")
 
 
